@@ -157,6 +157,11 @@ class G(object):
                 it['term'] = self.no_bracket(self.inlines(0, False, 1))      # \item[opt]
             if self.o['labels'] and kind == 'enumerate' and 'term' not in it and r.random() < 0.2:
                 it['label'] = self.newlabel('it')
+            elif self.o.get('term_labels') and 'term' in it and r.random() < self.o['term_labels']:
+                # a label in an item with an explicit term (not a numbered object: never referenced, never judged itself;
+                # it must not disturb the identifiers of the numbered objects around it)
+                self.nxlabel = getattr(self, 'nxlabel', 0) + 1
+                it['xlabel'] = 'xl:%d' % self.nxlabel
             items.append(it)
         return {'t': 'list', 'kind': kind, 'items': items}
 
@@ -404,6 +409,8 @@ def p_blocks(blocks, ind=''):
                     s += '[%s]' % p_inlines(it['term'])
                 if it.get('label'):
                     s += '\\label{%s}' % it['label']
+                if it.get('xlabel'):
+                    s += '\\label{%s}' % it['xlabel']
                 s += ' ' + p_blocks(it['c'])
             s += '\\end{%s}\n' % b['kind']
             out.append(s)
